@@ -8,12 +8,17 @@ pub fn fix_length(s: &mut String, len: usize) {
         }
     }
 
-    while s.len() > len {
+    // count characters, not UTF-8 bytes: a character in the range 128-255 takes two bytes
+    let mut char_count = s.chars().count();
+
+    while char_count > len {
         s.pop();
+        char_count -= 1;
     }
 
-    while s.len() < len {
+    while char_count < len {
         s.push(' ');
+        char_count += 1;
     }
 }
 
